@@ -555,7 +555,18 @@ pub fn run_regs(out: &mut Out, seed: u64, _n: u64) {
         let ss_sysret = ((8 + r.below(0x1ff0)) << 3 | 3) & 0xffff;
         let cs_syscall = (r.below(0x1ff0) << 3) & 0xffff;
         let mut q = [ss_sysret + 8, ss_sysret, cs_syscall, cs_syscall + 8];
-        match r.below(7) {
+        match r.below(12) {
+            // every requested privilege level on both selectors of a pair (the offset rule stays satisfied)
+            5 | 6 => {
+                let rpl = r.below(3); // 0, 1, 2: not ring 3
+                q[1] = (q[1] & !3) | rpl;
+                q[0] = (q[0] & !3) | rpl;
+            }
+            7 | 8 => {
+                let rpl = 1 + r.below(3); // 1, 2, 3: not ring 0
+                q[3] = (q[3] & !3) | rpl;
+                q[2] = (q[2] & !3) | rpl;
+            }
             0 => q[0] = q[0].wrapping_add(8) & 0xffff,
             1 => q[3] = q[3].wrapping_add(8) & 0xffff,
             2 => {
